@@ -63,6 +63,13 @@ CLAIMED = {
          "class table is written from the DWARF 5 standard independently of atval.cc.",
          "NOT covered: location lists and their element numbering, length/elem/relem, ?OP_x, address, abbreviations (all need the libdw contract "
          "model), opcodes whose operands libdw resolves (implicit_value, implicit_pointer, entry_value, const_type).", '0.3'),
+ 'C18': ("Kernel only (clause: type and binding are rendered in the constant family of the file's machine): for the generic domain and the "
+         "machines ARM, SPARC, PARISC, MIPS, X86_64, every STT / STB / STV code 0..15 renders -- through the real show()/most_enclosing() of "
+         "value-symbol.cc over an ostream byte-sink model -- as the name /usr/include/elf.h (parsed independently) gives it for that machine, "
+         "machine-specific names only under their machine, and unnamed codes never as a known name; that machine-specific constants are never "
+         "equal to another machine's while common ones are is part of the C09 check (c09_pair/c09_triple over the same domain objects).",
+         "NOT covered: iteration over the symbol table (every entry once, in order, numbered from zero) and the name/value/size/label/binding/"
+         "visibility accessors -- they need a model of libdwfl/libelf, which was not built.", '0.3'),
  'C20': ("Kernel only (clause: named constants have the value/name the headers define): for each of 17 constant families (DW_TAG, DW_AT, DW_FORM, "
          "DW_LANG, DW_INL, DW_ATE, DW_ACCESS, DW_VIS, DW_VIRTUALITY, DW_ID, DW_CC, DW_ORD, DW_DSC, DW_DS, DW_OP, DW_END, DW_DEFAULTED) the "
          "stringer of dwcst.cc (its tables regenerated through known-dwarf.awk at check time) returns, for EVERY int code, a name exactly when "
@@ -81,7 +88,6 @@ NA = {
  'C10': "op_tr_closure keeps a std::set<shared_ptr<stack>> ordered by value comparison: control depends on symbolic data, and CBMC's symbolic execution of merged C++ heap states did not terminate (DESIGN 2.5)",
  'C12': "needs two state buffers over one operator graph with a symbolic schedule, i.e. merged control over the C++ heap, which CBMC's symbolic execution does not get through (DESIGN 2.5)",
  'C15': "needs lexer/parser and execution of both sides; tree::simplify over vector<tree> not reached (DESIGN 7)",
- 'C18': "needs the libdwfl module/symbol model; the per-machine domain logic is covered under C09 only",
  'C19': "main() of the CLI is a 400-line monolith behind getopt/iostream/file I/O; the observables are the effects of those externals (DESIGN 7)",
 }
 
